@@ -660,9 +660,12 @@ def c17(ctx: Ctx) -> None:
               construct=construct_key('ensure_aw', 'transparency'))
     # R5
     lit = p.func(A, 'loop_in_thread')
-    g3 = build(lit, p)
+    g3 = build(lit, p, inline_module_helpers=True)
     lp = lit.params[0]
-    rb = [n for n in g3.nodes if n.kind == 'branch' and norm(n.meta['test']) == f'{lp}.is_running()']
+    from ..dataflow import unalias as _ua5
+    rb = [n for n in g3.nodes if n.kind == 'branch' and isinstance(n.meta['test'], ast.Call) and isinstance(n.meta['test'].func, ast.Attribute)
+          and n.meta['test'].func.attr == 'is_running' and not n.meta['test'].args
+          and norm(_ua5(g3, n, n.meta['test'].func.value)) == lp]
     rets = [n for n in g3.nodes if n.kind == 'return']
     for rn in rets:
         w = find_path(g3, [g3.entry], [rn], edge_ok=lambda e: not (e.src in rb and e.label == 'true'))
@@ -715,6 +718,9 @@ class _It:
 MEMOIZERS = {'functools.lru_cache', 'functools.cache', 'functools.cached_property'}
 
 
+_MISSING = object()
+
+
 def _affine_paths(f: Scope, program):
     """Evaluate `split` along each normal path of its control-flow graph (private helpers inlined, records
     desugared): every statement on the path is evaluated once, in order, over abstract iterator values.
@@ -753,6 +759,22 @@ def _affine_paths(f: Scope, program):
                 return ('name', res.path(e) or norm(e))
             if isinstance(e, ast.Constant):
                 return ('const', e.value)
+            if isinstance(e, ast.Call) and id(e) in getattr(g, 'inline_values', {}):
+                # a single-return helper (inlined in the graph): its value is its return expression over the arguments
+                rexpr, binding = g.inline_values[id(e)]
+                bound_ = {k: ev(v) for k, v in binding.items()}
+                saved_ = {k: env.get(k, _MISSING) for k in bound_}
+                env.update(bound_)
+                try:
+                    return ev0(rexpr)
+                finally:
+                    for x_ in ast.walk(rexpr):
+                        cache.pop(id(x_), None)      # the helper's expression is evaluated afresh at every call site
+                    for k, v in saved_.items():
+                        if v is _MISSING:
+                            env.pop(k, None)
+                        else:
+                            env[k] = v
             if isinstance(e, ast.Call):
                 fn = res.path(e.func) or norm(e.func)
                 args = [ev(a) for a in e.args]
@@ -1050,8 +1072,25 @@ def c19(ctx: Ctx) -> None:
     SPLITTERS = ('split', 'rsplit', 'partition', 'rpartition', 'find', 'rfind', 'index', 'rindex')
     tryp = next((c for c in f.children if c.kind == 'function' and any(
         isinstance(x, ast.Call) and isinstance(x.func, ast.Name) and x.func.id == parse_p for x in ast.walk(c.node))), None)
-    pair = next((c for c in f.children if c.kind == 'function' and c is not tryp and any(
-        isinstance(x, ast.Attribute) and x.attr in SPLITTERS for x in ast.walk(c.node))), None)
+    # the pair parser is the nested function every item goes through: the callable mapped over the items in the result
+    pair = None
+    fkids = [c for c in f.children if c.kind == 'function']
+    for x in own_nodes(f.node):
+        if isinstance(x, ast.Return) and x.value is not None:
+            for y in ast.walk(x.value):
+                if isinstance(y, ast.Call) and isinstance(y.func, ast.Name) and y.func.id == 'map' and y.args and isinstance(y.args[0], ast.Name):
+                    pair = next((c for c in fkids if c.name == y.args[0].id and c is not tryp), pair)
+                elif isinstance(y, ast.Call) and isinstance(y.func, ast.Name) and any(c.name == y.func.id and c is not tryp for c in fkids) \
+                        and isinstance(parent(y), (ast.GeneratorExp, ast.ListComp, ast.DictComp, ast.SetComp)):
+                    pair = next((c for c in fkids if c.name == y.func.id), pair)
+    # helpers of the pair parser (a nested splitter) are analysed inline; the guarded parser and the tuple parsers are roles
+    # of their own
+    callers_of_tryp = tuple(c.qualname for c in fkids if tryp is not None and c is not tryp and any(
+        isinstance(x, ast.Call) and isinstance(x.func, ast.Name) and x.func.id == tryp.name for x in ast.walk(c.node)))
+    role_sibs = tuple(q for q in ((tryp.qualname,) if tryp is not None else ()) + callers_of_tryp)
+    if pair is None:
+        pair = next((c for c in f.children if c.kind == 'function' and c is not tryp and any(
+            isinstance(x, ast.Attribute) and x.attr in SPLITTERS for x in ast.walk(c.node))), None)
     if pair is None:
         # the split may sit in a private module-level helper of the pair parser
         sibs = tuple(c.qualname for c in f.children if c.kind == 'function')
@@ -1062,7 +1101,7 @@ def c19(ctx: Ctx) -> None:
                     pair = c
     if pair is None or tryp is None:
         raise AnalysisError('parse_to_dict helpers (pair splitter / guarded parser) not found')
-    gp = build(pair, p, inline_module_helpers=True, no_inline=tuple(c.qualname for c in f.children if c.kind == 'function'))
+    gp = build(pair, p, inline_module_helpers=True, no_inline=tuple(q for q in role_sibs if q != pair.qualname))
     P = pair.params[0]
     # R1
     splits = [n for n in gp.nodes if n.kind == 'call' and isinstance(n.ast.func, ast.Attribute) and n.ast.func.attr in SPLITTERS
